@@ -22,7 +22,10 @@ MANIFEST = dict(
          'conditional on a regenerated fact; C16_chain_ends_at_any once fixed); every class below the roots has its test and alias bound to it, '
          'table = import-time dump of the registered tests, truth = isinstance (T2-translated _field_is_instance); filters/tests never replaced, '
          'conflicting add raises, for every sequence; reserved/language globals protected; T2-translated gate keeps jinja default globals. '
-         'Pre-fix theorems: History/C16_history.v.  Tie: Gen_Lookup.v regenerated from /repo on every run (forest, listings, jinja names, '
+         'SCOPE: template directories frozen during the life of a loader; under FIND_FIRST (the only policy DSDLCodeGenerator/nnvg uses) built-in '
+         'templates are unreachable once a templates dir is given (C16_find_first_builtins_unreachable), so "user beats built-in of the same name" '
+         'is a statement about FIND_ALL only.  Fix-state facts are obligations (C16_fix_state); only post-fix loader shapes are accepted; a '
+         'reproducing witness of a fixed finding is a VIOLATION.  Pre-fix theorems: History/C16_history.v.  Tie: Gen_Lookup.v regenerated from /repo on every run (forest, listings, jinja names, '
          'per-language environment names incl. js, RESERVED sets, TEMPLATE_SUFFIX, alias rule, _field_is_instance, gate, constructor order, '
          'loader shape facts); shape pins for loader, environment functions and generator wiring; extracted model vs. real '
          'DSDLTemplateLoader, real filter_type_to_template, real DSDLCodeGenerator.generate_all (marker templates), real tests and environments.',
@@ -35,11 +38,12 @@ MANIFEST = dict(
 HARNESS = os.path.join(core.VERIF, 'tools', 'harness', 'c16_impl.py')
 KF_MEMO, KF_ATTR, KF_GLOB = 'F-LOOKUP-MEMO-CROSS', 'F-ATTR-TESTS-CONST-FALSE', 'F-ENV-GLOBALS'
 KF_SUBDIR, KF_SHADOW, KF_CHAIN = 'F-LOOKUP-SUBDIR-NAME', 'F-LOOKUP-USER-GENERAL-FIRST', 'F-LOOKUP-CHAIN-PAST-ANY'
+KF_DANGLING = 'F-LOOKUP-DANGLING-LINK'
 
 
 def load_known_fragment(chk: core.Check) -> None:
     """known_findings.json is merged by the lead from known_findings.d/; until then read our own fragment"""
-    if any(e['id'] == KF_CHAIN for e in chk.known):
+    if any(e['id'] == KF_DANGLING for e in chk.known):
         return
     p = os.path.join(core.VERIF, 'known_findings.d', 'C16.json')
     if os.path.exists(p):
@@ -322,6 +326,11 @@ def gen_lookup_cases(rng, chains: typing.Dict[str, typing.List[str]], n: int, ti
     cases.append({'policy': 'FIND_ALL', 'fs': ['StructureType.j2'], 'pkg': ['StructureType.j2'], 'seq': ['StructureType'], 'get': ['StructureType.j2']})
     cases.append({'policy': 'FIND_ALL', 'fs': ['sub/StructureType.j2', 'Any.txt', 'notes.md'], 'pkg': ['StructureType.j2'], 'seq': ['StructureType', 'UnionType'], 'get': []})
     cases.append({'policy': 'FIND_FIRST', 'fs': ['x/y/Any.j2'], 'pkg': ['StructureType.j2'], 'seq': ['StructureType'], 'get': []})
+    # dangling links named like type templates (listed by the loader, not loadable): the nearest LOADABLE template counts
+    for pol in ('FIND_FIRST', 'FIND_ALL'):
+        cases.append({'policy': pol, 'fs': ['CompositeType.j2'], 'dangling': ['StructureType.j2'], 'pkg': [], 'seq': ['StructureType', 'UnionType'], 'get': []})
+        cases.append({'policy': pol, 'fs': ['Any.j2'], 'dangling': ['VoidType.j2', 'SerializableType.j2'], 'pkg': ['VoidType.j2'],
+                      'seq': ['VoidType', 'BooleanType', 'VoidType'], 'get': []})
     # (b) every class x subsets of its own chain in the user / built-in sets, cold and warm
     per_class = max(2, (n // 2) // max(1, len(classes)))
     for cn in classes:
@@ -488,7 +497,7 @@ def env_oracle(c: dict, ref: dict, got: dict, d: dict) -> typing.Optional[str]:
 # ---- main ---------------------------------------------------------------------------------------------------------
 def main(chk: core.Check, replay: typing.Optional[str] = None) -> int:
     load_known_fragment(chk)
-    res = core.coq_check('C16', ['lookup', 'pin_c16_loader', 'pin_c16_env', 'pin_c16_wiring'])
+    res = core.coq_check('C16', ['lookup', 'pin_c16_loader', 'pin_c16_env', 'pin_c16_wiring', 'pin_c16_surface'])
     chk.proof_coverage(res, [
         'C16 translator tools/translators/gen_c16.py: T1 dump of the pydsdl forest / template listings / bundled jinja2 names / per-language '
         'environment names / RESERVED_GLOBAL_ sets / TEMPLATE_SUFFIX, T2 translation of the alias rule and of _field_is_instance, of the '
@@ -529,7 +538,9 @@ def main(chk: core.Check, replay: typing.Optional[str] = None) -> int:
                             {'policy': 'FIND_ALL', 'fs': ['sub/StructureType.j2', 'CompositeType.j2'], 'pkg': ['StructureType.j2'],
                              'seq': ['StructureType'], 'get': []},
                             {'policy': 'FIND_ALL', 'fs': ['CompositeType.j2'], 'pkg': ['StructureType.j2'], 'seq': ['StructureType'], 'get': []},
-                            {'policy': 'FIND_FIRST', 'fs': ['ABC.j2'], 'pkg': ['StructureType.j2'], 'seq': ['StructureType'], 'get': []}],
+                            {'policy': 'FIND_FIRST', 'fs': ['ABC.j2'], 'pkg': ['StructureType.j2'], 'seq': ['StructureType'], 'get': []},
+                            {'policy': 'FIND_FIRST', 'fs': ['CompositeType.j2'], 'dangling': ['StructureType.j2'], 'pkg': [],
+                             'seq': ['StructureType'], 'get': []}],
                  'tests': True,
                  'env': [{'lang': 'c', 'allow': False, 'globals': {'range': 1}, 'filters': None, 'tests': None, 'dsdl': False, 'post': []}]}
     probe = run_impl(probe_doc)
@@ -547,9 +558,20 @@ def main(chk: core.Check, replay: typing.Optional[str] = None) -> int:
     live_shadow = 'err' not in probe['lookup'][2] and impl_outcomes(probe['lookup'][2]) == ['R:U0:CompositeType.j2']
     live_chain = 'err' not in probe['lookup'][3] and impl_outcomes(probe['lookup'][3]) == ['R:U0:ABC.j2']
     q_chain = live_chain and chk.is_known(KF_CHAIN)
+    live_dangling = 'err' not in probe['lookup'][4] and impl_outcomes(probe['lookup'][4]) == ['N:StructureType.j2']
+    q_dangling = live_dangling and chk.is_known(KF_DANGLING)
+    # a finding that is not listed as `known` (i.e. fixed, or never listed) whose witness reproduces is a regression: VIOLATION with the witness
+    regressions = []
+    for fid, live, witness in ((KF_MEMO, live_memo, probe_doc['lookup'][0]), (KF_SUBDIR, live_subdir, probe_doc['lookup'][1]),
+                               (KF_CHAIN, live_chain, probe_doc['lookup'][3]), (KF_DANGLING, live_dangling, probe_doc['lookup'][4]),
+                               (KF_ATTR, live_attr, {'test': 'padding', 'value': 'PaddingField of a parsed structure'}),
+                               (KF_GLOB, live_glob, probe_doc['env'][0])):
+        if live and not chk.is_known(fid):
+            regressions.append((fid, witness))
     q_subdir = live_subdir and chk.is_known(KF_SUBDIR)
     q_shadow = live_shadow and chk.is_known(KF_SHADOW)
-    for fid, live in ((KF_MEMO, live_memo), (KF_ATTR, live_attr), (KF_GLOB, live_glob), (KF_SUBDIR, live_subdir), (KF_SHADOW, live_shadow), (KF_CHAIN, live_chain)):
+    for fid, live in ((KF_MEMO, live_memo), (KF_ATTR, live_attr), (KF_GLOB, live_glob), (KF_SUBDIR, live_subdir), (KF_SHADOW, live_shadow), (KF_CHAIN, live_chain),
+                      (KF_DANGLING, live_dangling)):
         if live and chk.is_known(fid):
             chk.report_known(fid)
     q_shared = live_memo and chk.is_known(KF_MEMO)
@@ -601,7 +623,7 @@ def main(chk: core.Check, replay: typing.Optional[str] = None) -> int:
 
     stats = {'decoy_files': sum(1 for c in lk_cases[:n_plain] for k in ('fs', 'pkg') for x in (c[k] or []) if stem(x) not in chains or '/' in x),
              'lookup_cases': n_plain, 'lookups': 0, 'warm_lookups': 0, 'both_loaders': 0, 'find_first': 0, 'multi_user_dirs': 0,
-             'subdir_trigger_cases': 0, 'shadow_trigger_lookups': 0, 'known_subdir_instances': 0, 'known_shadow_instances': 0, 'known_chain_instances': 0, 'e2e_cases': 0, 'e2e_types_generated': 0,
+             'subdir_trigger_cases': 0, 'shadow_trigger_lookups': 0, 'known_subdir_instances': 0, 'known_shadow_instances': 0, 'known_chain_instances': 0, 'known_dangling_instances': 0, 'dangling_cases': 0, 'e2e_cases': 0, 'e2e_types_generated': 0,
              'rendered_none': 0, 'rendered_user': 0, 'rendered_user_not_first_dir': 0, 'rendered_builtin': 0, 'nearest_not_self': 0,
              'template_not_found': 0, 'test_evaluations': 0, 'test_values': 0, 'known_attr_instances': 0, 'known_memo_instances': 0,
              'env_cases': len(env_cases), 'env_errors': 0, 'env_dsdl_mode': 0, 'known_glob_instances': 0, 'env_allow': 0}
@@ -671,6 +693,9 @@ def main(chk: core.Check, replay: typing.Optional[str] = None) -> int:
             if got['res'][j] is not None and '/' in got['res'][j] and not live_subdir and iout[j].startswith('R:') \
                     and iout[j].split(':', 2)[2] == got['res'][j]:
                 continue   # F-LOOKUP-SUBDIR-NAME repaired by rendering the chosen sub-directory file itself: chosen == rendered
+            if q_dangling and iout[j].startswith('N:') and iout[j][2:] in (c.get('dangling') or []):
+                stats['known_dangling_instances'] += 1
+                continue
             sh_t = under_any_shape(lambda: shadow_trigger(chains, c, cn))
             stats['shadow_trigger_lookups'] += sh_t
             # the quirk-faithful model must reproduce the instance; if the model cannot be built, or a proof obligation / pin is broken
@@ -688,7 +713,9 @@ def main(chk: core.Check, replay: typing.Optional[str] = None) -> int:
         else:
             if got_get != exp_get:
                 bad_oracle.append(('lookup', c, {'get': exp_get}, {'get': got_get}, model))
-        if model is not None:
+        if c.get('dangling'):
+            stats['dangling_cases'] += 1
+        if model is not None and not (c.get('dangling') and live_dangling):   # dangling names are outside the model while the code indexes them
             traces += 1
             mget = [None if g is None else g for g in model.get('get', [])]
             iget = [None if g is None else g.split(':', 1)[0] for g in got_get]
@@ -801,13 +828,23 @@ def main(chk: core.Check, replay: typing.Optional[str] = None) -> int:
         'samples': [lk_cases[i] for i in range(0, min(len(lk_cases), 400), 57)] + env_cases[:3],
         'traces_validated_against_impl': traces,
         'distribution': stats,
-        'quirks_probed': {KF_MEMO: live_memo, KF_ATTR: live_attr, KF_GLOB: live_glob, KF_SUBDIR: live_subdir, KF_SHADOW: live_shadow, KF_CHAIN: live_chain},
+        'quirks_probed': {KF_MEMO: live_memo, KF_ATTR: live_attr, KF_GLOB: live_glob, KF_SUBDIR: live_subdir, KF_SHADOW: live_shadow, KF_CHAIN: live_chain, KF_DANGLING: live_dangling},
         'rendered_file': 'oracle = property reading of C16_rendered_file_partial (most specific class with <Class>.j2 in ANY root, file of the '
                          'first root); deviations only under the two listed findings (%d sub-directory, %d user-general-first instances, '
                          'each reproduced by the model)' % (stats['known_subdir_instances'], stats['known_shadow_instances']),
     })
 
-    if bad_oracle:
+    if regressions:
+        fid, witness = regressions[0]
+        e = chk.known_entry(fid) or {}
+        rep = {'what': 'the witness of %s (status %s) reproduces on the implementation: the defect is back' % (fid, e.get('status', 'not listed')),
+               'finding': fid, 'witness': witness, 'recorded_witness': e.get('witness'), 'all_regressions': [r[0] for r in regressions], 'broken': broken}
+        if isinstance(witness, dict) and 'seq' in witness:
+            rep['lookup_case'] = witness
+        elif isinstance(witness, dict) and 'lang' in witness:
+            rep['env_case'] = witness
+        chk.violation(rep, found_input=True)
+    elif bad_oracle:
         kind, c, exp, got, model = bad_oracle[0]
         rep = {'what': 'implementation violates the property (%s)' % kind, 'expected_by_property': exp, 'implementation': got, 'model': model,
                'broken': broken, 'n_failing': len(bad_oracle)}
